@@ -32,7 +32,7 @@ impl Report {
     }
 }
 
-fn thorough() -> bool { std::env::var("VERIF_TIER").map(|t| t == "thorough").unwrap_or(false) }
+pub(crate) fn thorough() -> bool { std::env::var("VERIF_TIER").map(|t| t == "thorough").unwrap_or(false) }
 
 // ------------------------------------------------------------------------------------------------------------------------------
 // C08: link footnotes are numbered consistently with their references, wherever the links occur.
@@ -532,12 +532,12 @@ pub fn bnd_c09() {
 // ------------------------------------------------------------------------------------------------------------------------------
 // Tables (C02, C03, C05, C06): render_table_tree, RenderTable::new, tbody_to_render_tree, render_table_row, append_columns_with_borders
 // as wholes.  Regular tables (every row spans the same number of columns) from a seeded generator.
-struct Lcg(u64);
+pub(crate) struct Lcg(pub(crate) u64);
 impl Lcg {
     fn next(&mut self) -> u64 { self.0 = self.0.wrapping_mul(6364136223846793005).wrapping_add(1442695040888963407); self.0 >> 33 }
-    fn below(&mut self, n: u64) -> u64 { self.next() % n }
+    pub(crate) fn below(&mut self, n: u64) -> u64 { self.next() % n }
 }
-fn seed() -> u64 { std::env::var("VERIF_SEED").ok().and_then(|s| s.parse().ok()).unwrap_or(0) }
+pub(crate) fn seed() -> u64 { std::env::var("VERIF_SEED").ok().and_then(|s| s.parse().ok()).unwrap_or(0) }
 
 const CELLS: [&str; 8] = ["", "aa", "bb cc", "longerword", "\u{4e2d}\u{6587}", "x1<br>y2", "dd ee ff gg", "q"];
 fn gen_table(r: &mut Lcg, depth: u32, tok: &mut u32) -> String {
@@ -1003,7 +1003,7 @@ fn gen_block_p(r: &mut Lcg, tok: &mut u32, depth: u32) -> (String, usize) {
     if r.below(4) == 0 { *tok += 1; let id = format!(" id=\"i{}\"", tok); if let Some(q) = b.find('>') { let mut o = b.clone(); o.insert_str(q, &id); return (o.replacen("<li>", &format!("<li id=\"j{}\">", tok), 1).replacen("<dd>", &format!("<dd id=\"k{}\">", tok), 1), p); } }
     (b, p)
 }
-fn gen_block(r: &mut Lcg, tok: &mut u32, depth: u32) -> String { gen_block_p(r, tok, depth).0 }
+pub(crate) fn gen_block(r: &mut Lcg, tok: &mut u32, depth: u32) -> String { gen_block_p(r, tok, depth).0 }
 fn gen_block0(r: &mut Lcg, tok: &mut u32, depth: u32) -> (String, usize) {
     match r.below(if depth < 2 { 9 } else { 4 }) {
         0 | 1 => (format!("<p>{}</p>", gen_inline(r, tok, 0)), 0),
@@ -1184,6 +1184,49 @@ pub fn c14_elements() {
         let after: String = ev[pos[0] + 1..].iter().filter(|e| !e.0).map(|e| e.1.as_str()).collect();
         if !after.starts_with("tb") && !after.starts_with("1tb") { rep.found(&input, &format!("marker is followed by {:?}, expected the element's text tb; events {:?}", &after[..after.len().min(12)], ev)); }
     }}
+    rep.finish();
+}
+
+// ------------------------------------------------------------------------------------------------------------------------------
+// C01 / C11 on malformed input: documents of the grammars above with characters deleted, duplicated, swapped or replaced.
+pub fn bnd_mut() {
+    let ndoc = if thorough() { 1200u32 } else { 250u32 };
+    let mut rep = Report::new("bnd_mut", &format!("{} seeded documents (table-free grammar and tables) each mutated 1..6 times at character level (delete, duplicate a span, swap neighbours, insert one of < > / = \" ' & ; # or a letter,         truncate), widths 0, 1, 2, 5, 17, 60, with and without css, options plain / allow_width_overflow / raw_mode / no_table_borders: no panic; width 0 gives Err(TooNarrow); with overflow allowed every width >= 1 gives Ok;         a rendering that succeeds is not changed by allowing overflow", ndoc));
+    let mut r = Lcg(0x5be0cd19137e2179 ^ seed());
+    let ins: Vec<char> = "<>/=\"'&;#x \n-!".chars().collect();
+    for i in 0..ndoc {
+        let mut tok = 0;
+        let mut doc = if i % 3 == 0 { gen_table(&mut r, 0, &mut tok) } else { let mut d = String::new(); for _ in 0..1 + r.below(2) { d.push_str(&gen_block(&mut r, &mut tok, 0)); } d };
+        if i % 5 == 0 { doc = format!("<style>.a{{color:#ff0000;}} p > em{{display:none;}}</style>{}", doc); }
+        let mut cs: Vec<char> = doc.chars().collect();
+        for _ in 0..1 + r.below(6) {
+            if cs.is_empty() { break; }
+            let p = r.below(cs.len() as u64) as usize;
+            match r.below(6) {
+                0 => { cs.remove(p); }
+                1 => { let e = (p + 1 + r.below(12) as usize).min(cs.len()); let span: Vec<char> = cs[p..e].to_vec(); for (k, c) in span.into_iter().enumerate() { cs.insert(e + k, c); } }
+                2 => { if p + 1 < cs.len() { cs.swap(p, p + 1); } }
+                3 => { cs.insert(p, ins[r.below(ins.len() as u64) as usize]); }
+                4 => { cs[p] = ins[r.below(ins.len() as u64) as usize]; }
+                _ => { if r.below(4) == 0 { cs.truncate(p); } }
+            }
+        }
+        let html: String = cs.into_iter().collect();
+        for w in [0usize, 1, 2, 5, 17, 60] { for opt in 0..4 {
+            let input = format!("width={} option={} html={}", w, ["plain", "use_doc_css", "raw_mode", "no_table_borders"][opt], html.replace('\n', "\\n"));
+            rep.case(&input);
+            let mk = move |ovf: bool| { let c = config::plain(); let c = match opt { 1 => c.use_doc_css(), 2 => c.raw_mode(true), 3 => c.no_table_borders(), _ => c }; if ovf { c.allow_width_overflow() } else { c } };
+            let (h1, h2) = (html.clone(), html.clone());
+            let strict = match panic::catch_unwind(move || mk(false).string_from_read(h1.as_bytes(), w)) { Ok(x) => x, Err(_) => { rep.found(&input, "panic"); continue; } };
+            let loose = match panic::catch_unwind(move || mk(true).string_from_read(h2.as_bytes(), w)) { Ok(x) => x, Err(_) => { rep.found(&input, "panic (allow_width_overflow)"); continue; } };
+            if w == 0 { if strict.is_ok() || loose.is_ok() { rep.found(&input, "width 0 did not give an error"); } continue; }
+            match (&strict, &loose) {
+                (_, Err(e)) => rep.found(&input, &format!("error {:?} although width overflow is allowed", e)),
+                (Ok(a), Ok(b)) => if a != b { rep.found(&input, &format!("allow_width_overflow changed a rendering that succeeds: {:?} vs {:?}", a, b)); },
+                _ => {}
+            }
+        }}
+    }
     rep.finish();
 }
 
@@ -1378,7 +1421,7 @@ pub fn bnd_c15() {
     let ndoc = if thorough() { 600u32 } else { 150u32 };
     let mut rep = Report::new("bnd_c15", &format!("{} seeded documents (the table-free grammar of bnd_doc plus tables with links in cells), widths 8..=40 step 4: \
         max_wrap_width(m >= width) changes nothing; pad_block_width only appends trailing spaces; unicode_strikeout(false) == output with U+0336 deleted; no_table_borders and raw_mode leave no box-drawing character; \
-        link_footnotes(false) removes the references and the list and leaves the table rules where they were", ndoc));
+        link_footnotes(false) removes the references and the list and leaves the table rules where they were; no_link_wrapping changes only the line breaks of the footnote list; min_wrap_width changes nothing without nested blocks", ndoc));
     let mut r = Lcg(0x3c6ef372fe94f82b ^ seed());
     for i in 0..ndoc {
         let mut tok = 0;
@@ -1406,6 +1449,18 @@ pub fn bnd_c15() {
             if let Some(o) = run(&|c| c.unicode_strikeout(false)) { let d: String = base.chars().filter(|c| *c != '\u{336}').collect(); if o != d { rep.found(&input, &format!("unicode_strikeout(false) is not the output without U+0336: {:?} vs {:?}", o, d)); } }
             if let Some(o) = run(&|c| c.no_table_borders()) { if o.chars().any(|c| is_rule(c) || c == '\u{2502}') { rep.found(&input, &format!("no_table_borders left box-drawing characters: {:?}", o)); } }
             if let Some(o) = run(&|c| c.raw_mode(true)) { if o.chars().any(|c| is_rule(c) || c == '\u{2502}') { rep.found(&input, &format!("raw_mode left box-drawing characters: {:?}", o)); } }
+            // options that do not apply leave the output unchanged: no_link_wrapping without footnotes; min_wrap_width on a document without prefixed blocks and tables
+            if let (Some(a), Some(b)) = (run(&|c| c.link_footnotes(false)), run(&|c| c.link_footnotes(false).no_link_wrapping())) { if a != b { rep.found(&input, &format!("no_link_wrapping changed a rendering without footnotes: {:?} vs {:?}", b, a)); } }
+            if !html.contains("<a ") { if let Some(o) = run(&|c| c.no_link_wrapping()) { if o != base { rep.found(&input, &format!("no_link_wrapping changed a document without links: {:?} vs {:?}", o, base)); } } }
+            // with footnotes, no_link_wrapping only changes how the footnote lines are broken: the text before the list and the targets are the same
+            if let (Some(a), Some(b)) = (run(&|c| c.link_footnotes(true)), run(&|c| c.link_footnotes(true).no_link_wrapping())) {
+                let body = |s: &str| -> String { s.lines().take_while(|l| !l.starts_with("[1]:")).collect::<Vec<_>>().join("\n") };
+                let notes = |s: &str| -> String { s.lines().skip_while(|l| !l.starts_with("[1]:")).flat_map(|l| l.chars()).filter(|c| !c.is_whitespace()).collect() };
+                if body(&a) != body(&b) || notes(&a) != notes(&b) { rep.found(&input, &format!("no_link_wrapping changed more than the line breaks of the footnote list: {:?} vs {:?}", b, a)); }
+            }
+            if !html.contains("<ul") && !html.contains("<ol") && !html.contains("<blockquote") && !html.contains("<dl") && !html.contains("<table") && !html.contains("<h") {
+                for k in [1usize, 2, 6] { if let Some(o) = run(&|c| c.min_wrap_width(k)) { if o != base { rep.found(&input, &format!("min_wrap_width({}) changed a document without nested blocks: {:?} vs {:?}", k, o, base)); } } }
+            }
             let on = run(&|c| c.link_footnotes(true)); let off = run(&|c| c.link_footnotes(false));
             if let (Some(on), Some(off)) = (on, off) {
                 if !markers(&off).is_empty() || off.lines().any(|l| l.starts_with('[') && l.contains("]: ")) { rep.found(&input, &format!("link_footnotes(false) left references or a list: {:?}", off)); }
